@@ -42,6 +42,7 @@ def work(case):
     strip = lambda x: {k: v for k, v in x.items() if k != "out_bytes"}
     case = dict(case, edits=edits)
     return {"case": case, "res": strip(r), "indexed": {"edits": ix, "res": strip(rix)} if rix else None,
+            "heur": {"edits": edits, "res": strip(r)},
             "sample": {"edits": [(e["target"], e["new"], e["kind"]) for e in edits]}}
 
 
